@@ -17,11 +17,15 @@ class Reached(Exception):
 
 
 class V:
+    """V.reached() marks 'the assertion is reached'; V.reached("tag") additionally names a branch that must be reachable on its own
+    (the driver runs one extra twin per tag found in the harness source, see ch_driver): guards against a harness whose interesting
+    branch is never explored because an engine artefact or an over-eager except clause ends every path early."""
     twin = False
+    want = None
 
     @staticmethod
-    def reached():
-        if V.twin:
+    def reached(tag=None):
+        if V.twin and (V.want is None or V.want == tag):
             raise Reached()
 
 
